@@ -205,6 +205,18 @@ cs_step_s = st.fixed_dictionaries({
                                st.sampled_from(["replace", "replace", "delete", "touch", "create"]),
                                content_s, clock_s).map(list), max_size=2),
 })
+# a file changes between the library's stat and its open(): route of the call, size the file is given
+# beforehand (None: as it is; else just below / at / above the library's 1 MiB read chunk), mutation
+# applied at the first open() of the file, and its byte count
+MIB = 2**20
+ao_route_s = st.sampled_from(["hash_file", "hash_file", "hash_file", "index_md5", "index_md5",
+                              "hash_file+info", "build_file", "get_hashes", "build_dir",
+                              "build_entries"])
+ao_pre_s = st.sampled_from([None, None, None, 100, MIB - 1, MIB - 1, MIB - 16, MIB - 16, MIB - 512,
+                            MIB - 4096, MIB - 4096, MIB, MIB + 1])
+ao_mut_s = st.sampled_from(["append", "append", "append", "append", "truncate", "rewrite", "replace+",
+                            "replace+", "replace-", "replace="])
+ao_n_s = st.sampled_from([1, 1, 2, 15, 16, 17, 512, 513, 4096, 4097, 70_000])
 pos_s = st.lists(
     st.one_of(st.sampled_from([0, 1, 997, 998, 999, 1000, 1001, 1997, 1998, 1999, 2497, 2499]),
               st.integers(0, 3000)),
@@ -300,6 +312,26 @@ class WriterFS(LocalFileSystem):
                     self.action(self.victim)
             if p not in self.opened:
                 self.opened.append(p)
+        return super().open(path, mode, **kwargs)
+
+
+class AtOpenFS(LocalFileSystem):
+    """Harness-owned local filesystem: the first time the library opens the victim for reading,
+    another writer changes it BEFORE the handle is returned - i.e. strictly between the library's
+    stat of the file and its first read; the bytes the library then reads are the post-mutation
+    bytes, in full. Deterministic, no threads, no timing."""
+
+    def __init__(self, victim_real, action):
+        super().__init__()
+        self.victim = victim_real
+        self.action = action
+        self.fired = False
+
+    def open(self, path, mode="r", **kwargs):
+        if (not self.fired and "r" in mode
+                and os.path.realpath(os.fspath(path)) == self.victim):
+            self.fired = True
+            self.action()
         return super().open(path, mode, **kwargs)
 
 
@@ -1332,6 +1364,134 @@ class C13Machine(TraceMachine):
                     f.write((b"%d:0123456789abcdefg\n" % i) * (56_000 + 3000 * i))
             self.labels.add("big-files-created")
         return [os.path.join(d, nm) for nm in ["big-a", "big-b", "big-c"]]
+
+    # ---- a file that changes between the library's stat and its open() --------------------------
+    def ao_bytes(self, size):
+        """Cheap bytes of an exact size (16-byte block repeated, no CR: md5-dos2unix == md5 whatever
+        the chunking), different on every call of a history."""
+        self.ao_k = getattr(self, "ao_k", 0) + 1
+        pat = bytes([65 + self.ao_k % 26]) + b"0123456789abcd\n"
+        return (pat * (size // 16 + 1))[:size]
+
+    def do_sized(self, p, how, n, clock):
+        """Size-directed mutation of the regular file p, then the harness clock: set (in place, n
+        bytes), append (n bytes), truncate (cut n bytes), rewrite (same size, other bytes), replace+
+        / replace- / replace= (atomic replace = new inode, by other bytes of size +n / -n / equal)."""
+        before, prev = self.triple(p), os.stat(p).st_mtime_ns
+        ino, size = os.stat(p).st_ino, os.path.getsize(p)
+        old = ref.read(p)
+        if how.startswith("replace"):
+            new_size = size + n if how == "replace+" else max(0, size - n) if how == "replace-" else size
+            tmp = p + ".tmp~"
+            with open(tmp, "xb") as f:
+                f.write(self.ao_bytes(new_size))
+            os.replace(tmp, p)
+            if os.stat(p).st_ino == ino:
+                raise HarnessError("atomic replace did not produce a new inode")
+        else:
+            if how == "append":
+                with open(p, "ab") as f:
+                    f.write(self.ao_bytes(n))
+            elif how == "truncate":
+                os.truncate(p, max(0, size - n))
+            else:
+                data = self.ao_bytes(n if how == "set" else size)
+                with open(p, "r+b") as f:
+                    f.write(data)
+                    f.truncate()
+            if os.stat(p).st_ino != ino:
+                raise HarnessError("in-place mutation changed the inode")
+        self.after_mutation(p, before, self.clock(p, clock, prev), content_changed=ref.read(p) != old)
+        self.labels.add("mut:sized:" + how)
+
+    @rule(slot=qslot_s, route=ao_route_s, algo=algo_s, pre=ao_pre_s, mut=ao_mut_s, n=ao_n_s,
+          clock=clock_s, prime=st.sampled_from([None, None, None, None, 0, 1, 2]),
+          infos=st.sampled_from(["none", "none", "all"]), probe=probe_s, palgo=algo_s)
+    @traced
+    def mutate_at_open(self, slot, route, algo, pre, mut, n, clock, prime, infos, probe, palgo):
+        """Another writer changes a file between the library's stat of it and its open(): the call
+        goes through AtOpenFS, which applies the drawn mutation (append - also from just below the
+        1 MiB read chunk to beyond it -, truncate, same-size rewrite, atomic replace; then the
+        harness clock) at the first open() of that file, before the handle is returned.
+
+        The hash returned by that very call is not judged for the file. Whatever the call recorded
+        must not make any later lookup a stale hit: right after the call and ever after, every
+        route's answer must be the digest of the file's bytes at that instant (a call that stat()s
+        the file again after hashing may record the hash of the bytes it read under that token; a
+        call that records under the caller's earlier stat info leaves an entry no later token
+        matches)."""
+        from dvc_data.hashfile.build import _get_hashes, build
+        from dvc_data.hashfile.hash import hash_file
+        from dvc_data.index.build import build as ibuild
+        from dvc_data.index.build import build_entries
+        from dvc_data.index.save import md5 as imd5
+
+        p = self.qpath(slot)
+        if p is None:
+            return
+        target = os.path.realpath(p)      # the file whose bytes are hashed (p may be a symlink)
+        name = ALGOS[algo]
+        if pre is not None:               # an ordinary earlier write gives the file its size
+            self.do_sized(target, "set", pre, ["d", 1500])
+        self.prime(p, prime)
+        size0 = os.path.getsize(target)
+
+        afs = AtOpenFS(target, lambda: self.do_sized(target, mut, n, clock))
+        self.cnt["queries"] += 1
+        got = {}
+        if route in ("hash_file", "hash_file+info"):
+            info = self.fs.info(p) if route.endswith("+info") else None
+            hash_file(p, afs, name, state=self.state, info=info)
+        elif route == "index_md5":
+            res = imd5(ibuild(self.ws, afs), state=self.state, name=name)
+            got = {os.path.join(self.ws, *key): e.hash_info for key, e in res.iteritems()
+                   if not (e.meta is not None and e.meta.isdir) and e.hash_info}
+        elif route == "build_file":
+            odb = ops.make_odb("local", os.path.join(self.dir, f"odb-local-{name}"),
+                               state=self.state, hash_name=name)
+            build(odb, p, afs, name, dry_run=True)
+        elif route == "get_hashes":
+            live = self.live_files()
+            given = {q: self.fs.info(q) for q in live}
+            res = _get_hashes(list(live), afs, name, given, state=self.state)
+            got = {q: r[1] for q, r in res.items()}
+        elif route == "build_dir":
+            odb = ops.make_odb("local", os.path.join(self.dir, f"odb-local-{name}"),
+                               state=self.state, hash_name=name)
+            _staging, _meta, obj = build(odb, self.ws, afs, name, dry_run=True)
+            got = {os.path.join(self.ws, *key): hi for key, _m, hi in obj}
+        else:
+            for e in build_entries(self.ws, afs, compute_hash=True, state=self.state,
+                                   hash_name=name):
+                if not (e.meta is not None and e.meta.isdir):
+                    got[os.path.join(self.ws, *e.key)] = e.hash_info
+        self.take_hits(name)
+        route_name = {"index_md5": "index.md5", "get_hashes": "_get_hashes", "build_dir": "build(dir)",
+                      "build_entries": "build_entries"}.get(route, route)
+        for q in sorted(got):   # every other file of a batch call is judged as ever
+            if os.path.realpath(q) != target:
+                self.check(route_name, q, got[q], name)
+        self.labels.add(f"q:at-open:{route}")
+        if not afs.fired:       # answered from the cache: the file was never opened
+            self.labels.add("at-open:writer-not-fired")
+        else:
+            size1 = os.path.getsize(target)
+            self.nt.add("mutation-at-open")
+            self.labels.add(f"at-open:{route}:{mut}")
+            self.labels.add("at-open:size:" + ("below-1MiB->above" if size0 < MIB < size1 else
+                                               "below-1MiB->1MiB" if size0 < MIB == size1 else
+                                               ">=1MiB" if size0 >= MIB else
+                                               "stays-below-1MiB"))
+            if p != target:
+                self.labels.add("at-open:through-symlink")
+        # what the call recorded: every way of asking about the file, now and (later steps) ever after
+        self.r_get(p, False)
+        others = [q for q in self.live_files() if q != p]
+        self.r_get_many(others[:1] + [p] + others[1:3], infos)
+        self.r_get(p, True)
+        self.r_hash_file(p, name, infos == "all")
+        self.r_index_update(name, True)
+        self.probe(p, probe, palgo)
 
     # ---- symlinked entries: the bytes (and the token) are those of the link's target -----------
     @rule(link=st.integers(0, 1), how=st.sampled_from(["in_place", "in_place", "replace"]),
